@@ -19,10 +19,13 @@ Inductive instr :=
   | IAlloc                (* r := alloc()                                   *)
   | ITestNull             (* if (r == NULL) goto error-edge                 *)
   | IUse (k : use_kind)   (* *r, r->f, r[i], Memcpy(r, ..), f(r) ...        *)
-  | IHandOver.            (* return r / out->field = r : the consumer goes on *)
+  | IHandOver             (* return r : the caller goes on (it is a site of the table itself)            *)
+  | IStoreField.          (* x->field = r and nothing else: readers of the field take NULL for "not set" *)
 
 Inductive outcome :=
   | Fault (k : use_kind)  (* NULL dereferenced *)
+  | SilentNull            (* NULL was stored where it MEANS something ("no expected name", "no ticket"):
+                             no crash, no error - the feature is silently off *)
   | ErrorEdge             (* the NULL test fired: PS_MEM_FAIL / SSL_MEM_ERROR path *)
   | Completed             (* block in use, execution continues normally *)
   | Stuck.                (* ill-formed program (register read before IAlloc) - never produced by site_prog *)
@@ -48,6 +51,12 @@ Definition step (orc : oracle) (c : cfg) : step_result :=
       | Some (Some _) => Next (mkCfg rest (reg c))
       end
   | IHandOver :: rest => Next (mkCfg rest (reg c))
+  | IStoreField :: rest =>
+      match reg c with
+      | None => Halt Stuck
+      | Some None => Halt SilentNull
+      | Some (Some _) => Next (mkCfg rest (reg c))
+      end
   end.
 
 Fixpoint run (fuel : nat) (orc : oracle) (c : cfg) : outcome :=
@@ -61,12 +70,20 @@ Definition site_prog (s : site) : list instr :=
   match s_class s with
   | GuardedBeforeUse _ => [IAlloc; ITestNull; IUse UField]
   | UsedUnguarded k    => [IAlloc; IUse k; ITestNull]
-  | Returned | StoredOnly =>
-      (* the raw result leaves the function; what happens next is the consumer's code:
-         Returned  - the callers are sites of this same table (allocator = this function), so the
-                     obligation is theirs and this site contributes no use of its own;
-         StoredOnly - the scanner looked for a NULL test of the field the result was stored in *)
+  | Returned =>
+      (* the raw result leaves the function as its return value: the function is an allocator itself, the
+         translator lists every call of it as a site of this same table (s_alloc = this function), and the
+         obligation is discharged there *)
       IAlloc :: IHandOver :: (if s_consumers_tested s then [ITestNull; IUse UField] else [IUse UField])
+  | Discarded =>
+      (* `f(..);` - the value of an allocating function is dropped.  Nothing at this site can dereference it; the
+         only consumer is the callee's own NULL test (for the psDynBuf family that test latches the buffer's
+         err flag, which the later detach turns into a NULL result - again a site of this table) *)
+      [IAlloc; ITestNull]
+  | StoredUnchecked =>
+      (* stored in a structure field / out-parameter without a test and the function goes on or returns
+         success.  The code that reads the field later cannot tell "allocation failed" from "never requested" *)
+      [IAlloc; IStoreField]
   | Unknown => [IAlloc; IUse UArg]      (* conservative: an unclassified site is treated as a potential fault *)
   end.
 
@@ -75,9 +92,9 @@ Definition run_site (s : site) (orc : oracle) : outcome :=
 
 Definition guarded (s : site) : bool :=
   match s_class s with
-  | GuardedBeforeUse _ => true
-  | Returned | StoredOnly => s_consumers_tested s
-  | UsedUnguarded _ | Unknown => false
+  | GuardedBeforeUse _ | Discarded => true
+  | Returned => s_consumers_tested s
+  | StoredUnchecked | UsedUnguarded _ | Unknown => false
   end.
 
 (* Confirmed-but-unrepaired sites (open known findings), by key. *)
